@@ -128,7 +128,7 @@ static bool allfinite(const std::vector<S> &x) { for (auto &v : x) if (!vf::fini
 // cg: A-norm optimality over x0 + K_k(PA, P r0)
 //---------------------------------------------------------------------------
 static void sub_cg() {
-    long N = vf::tier(30, 700);
+    long N = vf::tier(100, 700);
     for (long idx = 0; idx < N; ++idx) {
         if (!vf::selected("cg", idx)) continue;
         Rng r(vf::case_seed("cg", idx)); int pk = (int)(idx % 3); System s = make_system(r, true, pk);       // identity / exact / hpd-approx
@@ -185,7 +185,7 @@ template <class F> static void optimal_k(Case &c, const System &s, const std::st
 }
 
 static void sub_gmres() {
-    long N = vf::tier(40, 900);
+    long N = vf::tier(100, 900);
     for (long idx = 0; idx < N; ++idx) {
         if (!vf::selected("gmres", idx)) continue;
         Rng r(vf::case_seed("gmres", idx)); int pk = (int)(idx % 4); bool spd = (idx / 4) % 3 == 0; if (spd && pk == 3) pk = 2;
@@ -206,7 +206,7 @@ static void sub_gmres() {
 
 // restart lengths M in {1,2,4,30}: reported (and true) residual non-increasing in k
 static void sub_monotone() {
-    long N = vf::tier(24, 500);
+    long N = vf::tier(60, 500);
     for (long idx = 0; idx < N; ++idx) {
         if (!vf::selected("monotone", idx)) continue;
         Rng r(vf::case_seed("monotone", idx)); int pk = (int)(idx % 4); bool spd = (idx / 4) % 4 == 0; if (spd && pk == 3) pk = 2; if (pk == 1) pk = 2;    // exact P converges in one step: nothing to observe
@@ -256,7 +256,7 @@ static BiRef bicgstab_ref(const Mat &A, const Mat &P, const Vec &f, Vec x, int k
     return BiRef{x, amp};
 }
 static void sub_bicgstab() {
-    long N = vf::tier(40, 900);
+    long N = vf::tier(120, 900);
     for (long idx = 0; idx < N; ++idx) {
         if (!vf::selected("bicgstab", idx)) continue;
         Rng r(vf::case_seed("bicgstab", idx)); int pk = (int)(idx % 4); if (pk == 1) pk = 3;    // exact P: one step and the residual is rounding noise, recurrences meaningless afterwards
@@ -289,7 +289,7 @@ static BiRef bicgstabl_ref(const Mat &A, const Mat &P, const Vec &f, const Vec &
     int n = (int)f.size(); auto Op = [&](const Vec &v) { return left ? Vec(P * (A * v)) : Vec(A * (P * v)); };
     auto cosang = [](L ip, const Vec &a, const Vec &b) { R d = a.norm() * b.norm(); return d > 0 ? (R)std::abs(ip) / d : (R)0; };
     Vec b = left ? Vec(P * (f - A * x0)) : Vec(f - A * x0); std::vector<Vec> Rv(Lp + 1, Vec::Zero(n)), U(Lp + 1, Vec::Zero(n)); Rv[0] = b; Vec rt = b, X = Vec::Zero(n);
-    L alpha = 0, rho0 = 1, omega = 1; R amp = 1;
+    L alpha = 0, rho0 = 1, omega = 1; R amp = 1, cond2sum = 0;
     for (int c = 0; c < cycles; ++c) {
         rho0 = -omega * rho0;
         for (int j = 0; j < Lp; ++j) {
@@ -303,16 +303,16 @@ static BiRef bicgstabl_ref(const Mat &A, const Mat &P, const Vec &f, const Vec &
         }
         Mat Rm(n, Lp); for (int j = 1; j <= Lp; ++j) Rm.col(j - 1) = Rv[j];
         Vec g = Rm.fullPivHouseholderQr().solve(Rv[0]);
-        { Eigen::JacobiSVD<Mat> svd(Rm); R smax = svd.singularValues()[0], smin = svd.singularValues()[Lp - 1]; R cd = smin > 0 ? smax / smin : (R)1e30L; amp *= cd * cd; }   // normal equations square the conditioning
+        { Eigen::JacobiSVD<Mat> svd(Rm); R smax = svd.singularValues()[0], smin = svd.singularValues()[Lp - 1]; R cd = smin > 0 ? smax / smin : (R)1e30L; cond2sum += cd * cd; }   // normal equations square the conditioning (first order: the cycles add up)
         omega = g[Lp - 1];
         for (int j = 1; j <= Lp; ++j) X += g[j - 1] * Rv[j - 1];
         for (int j = 1; j <= Lp; ++j) U[0] -= g[j - 1] * U[j];
         for (int j = 1; j <= Lp; ++j) Rv[0] -= g[j - 1] * Rv[j];
     }
-    Vec x = left ? Vec(x0 + X) : Vec(x0 + P * X); return BiRef{x, amp};
+    Vec x = left ? Vec(x0 + X) : Vec(x0 + P * X); return BiRef{x, amp * cond2sum};
 }
 static void sub_bicgstabl() {
-    long N = vf::tier(30, 600);
+    long N = vf::tier(100, 600);
     for (long idx = 0; idx < N; ++idx) {
         if (!vf::selected("bicgstabl", idx)) continue;
         Rng r(vf::case_seed("bicgstabl", idx)); int pk = (int)(idx % 3) == 1 ? 3 : (int)(idx % 3); bool spd = (idx / 3) % 4 == 0; if (spd && pk == 3) pk = 2;
@@ -320,9 +320,9 @@ static void sub_bicgstabl() {
         for (int Lp : {2, 4}) for (int cyc = 1; cyc <= (Lp == 2 ? 3 : 2); ++cyc) for (int left = 0; left < 2; ++left) {
             std::string name = "bicgstabl(L=" + std::to_string(Lp) + ")" + (left ? "-left" : "");
             BiRef ref = bicgstabl_ref(s.A, s.P, s.f, s.x0, Lp, cyc, left);
-            // tolerance 1e-8, widened to 1e3 u amp when the recurrences / normal equations are sensitive; beyond 1e-4 nothing can be said (skipped, counted)
+            // tolerance 1e-8, widened to 1e3 u amp when the recurrences / normal equations are sensitive; beyond 1e-3 nothing can be said (skipped, counted)
             double tolr = std::max(1e-8, 1e3 * vf::unit_roundoff<S>::get() * (double)ref.amp);
-            if (!(tolr < 1e-4) || !std::isfinite((double)ref.x.norm())) { vf::obs_sum("bicgstabl_ill_conditioned_skipped"); continue; }
+            if (!(tolr < 1e-3) || !std::isfinite((double)ref.x.norm())) { vf::obs_sum("bicgstabl_ill_conditioned_skipped"); continue; }
             amgcl::solver::bicgstabl<B>::params p; budget(p, (size_t)Lp * cyc); p.L = Lp; p.pside = left ? side::left : side::right; amgcl::solver::bicgstabl<B> Sv(n, p); Run o = run(Sv, s);
             if (o.threw) { c.fail(name + ":exception", o.what, J().n("cycles", cyc)); continue; }
             Vec xk = to_vec(o.x); R err = (xk - ref.x).cwiseAbs().maxCoeff(), sc = ref.x.cwiseAbs().maxCoeff();
@@ -341,13 +341,14 @@ static void sub_bicgstabl() {
 // Two runs (maxiter = s and s + 1) give x_s and x_{s+1}; r_s is recomputed from x_s.
 //---------------------------------------------------------------------------
 static void sub_idrs() {
-    long N = vf::tier(30, 600);
+    long N = vf::tier(100, 600);
     for (long idx = 0; idx < N; ++idx) {
         if (!vf::selected("idrs", idx)) continue;
         Rng r(vf::case_seed("idrs", idx)); int pk = (int)(idx % 3) == 1 ? 3 : (int)(idx % 3); bool spd = (idx / 3) % 4 == 0; if (spd && pk == 3) pk = 2;
         System s = make_system(r, spd, pk, 12, 24, false, 6.0); Case c("idrs", idx, sysdesc(s)); int n = s.n;
+        R nA, nP; { Eigen::JacobiSVD<Mat> sa(s.A), sp(s.P); nA = sa.singularValues()[0]; nP = sp.singularValues()[0]; }
         for (unsigned sv = 1; sv <= 8; ++sv) for (int strat = 0; strat < 2; ++strat) {
-            double om = strat ? 0.7 : 0.0; std::string name = "idrs(s=" + std::to_string(sv) + ")";
+            double om = strat ? 0.7 : 0.0; std::string name = "idrs";
             amgcl::solver::idrs<B>::params p; p.s = sv; p.omega = om; p.tol = 0;
             p.maxiter = sv; amgcl::solver::idrs<B> S1(n, p); Run a = run(S1, s);
             p.maxiter = sv + 1; amgcl::solver::idrs<B> S2(n, p); Run b = run(S2, s);
@@ -358,9 +359,23 @@ static void sub_idrs() {
             if (!(rs.norm() > 1e-6L * s.f.norm()) || !(rho > 1e-3L)) { vf::obs_sum("idrs_step_skipped_converged_or_orthogonal"); continue; }   // nothing to observe / quotient ill-conditioned
             if ((R)om > rho) w *= (L)((R)om / rho);
             Vec ex = w * v; R err = (dx - ex).norm(), sc = ex.norm();
-            c.check(allfinite(b.x) && (double)err <= 1e-8 * (double)sc / (double)std::min<R>(1, rho), name + ":dimension-reduction-step", "step s+1 of IDR(s) is not x + w Prec r with the minimal-residual w (adjusted by params::omega)",
+            // 1e-8 relative to the step (quotient sensitivity 1/cos) plus the gap between the solver's recursively updated residual and the true residual
+            // of x_s used here: 100 u (s+1) ||A|| max||x_j|| (Greenbaum), mapped to the step by ||P|| / cos
+            R gap = 100.0L * vf::unit_roundoff<S>::get() * (sv + 1) * nA * nP * (xa.norm() + xb.norm() + s.x0.norm()) / std::min<R>(1, rho);
+            c.check(allfinite(b.x) && (double)err <= 1e-8 * (double)sc / (double)std::min<R>(1, rho) + (double)gap, name + ":dimension-reduction-step", "step s+1 of IDR(s) is not x + w Prec r with the minimal-residual w (adjusted by params::omega)",
                     J().n("s", sv).n("omega_param", om).n("err", (double)err).n("scale", (double)sc).n("cos", (double)rho));
             vf::obs_max("idrs_mr_step_max_rel_err", (double)(err / sc)); vf::obs_sum("method_k_pairs"); c.nontrivial();
+        }
+        // residual smoothing (params::smoothing): the returned iterate is the minimal-residual combination of the previous smoothed iterate and the new
+        // IDR iterate, so the residual of the returned x cannot increase with k
+        { unsigned sv = (unsigned)(1 + idx % 8); Mat aA = s.A.cwiseAbs(); R nf = s.f.norm(); double prev = std::numeric_limits<double>::infinity();
+          for (unsigned k = 0; k <= 2 * (sv + 1) && k <= (unsigned)n; ++k) {
+            amgcl::solver::idrs<B>::params p; p.s = sv; p.smoothing = true; p.tol = 0; p.maxiter = k; amgcl::solver::idrs<B> Sv(n, p); Run o = run(Sv, s);
+            if (o.threw) { c.fail("idrs-smoothing:exception", o.what, J().n("k", k)); break; }
+            Vec xk = to_vec(o.x); double tr = (double)((s.f - s.A * xk).norm() / nf); Vec ax = aA * xk.cwiseAbs();
+            double slack = 2 * (double)(8.0L * vf::unit_roundoff<S>::get() * (n + 3) * (ax.norm() + nf) / nf) + (double)(100.0L * vf::unit_roundoff<S>::get() * (k + 1) * nA * (xk.norm() + s.x0.norm()) / nf);   // evaluation noise + recursive-residual gap
+            c.check(std::isfinite(tr) && tr <= prev * (1 + 1e-10) + slack, "idrs-smoothing:residual-increases", "with residual smoothing the residual of the returned iterate increased from k-1 to k", J().n("s", sv).n("k", k).n("prev", prev).n("now", tr));
+            prev = tr; vf::obs_sum("method_k_pairs"); }
         }
     }
 }
@@ -369,7 +384,7 @@ static void sub_idrs() {
 // Richardson: x + w P (f - A x) repeated k times
 //---------------------------------------------------------------------------
 static void sub_richardson() {
-    long N = vf::tier(30, 600);
+    long N = vf::tier(100, 600);
     for (long idx = 0; idx < N; ++idx) {
         if (!vf::selected("richardson", idx)) continue;
         Rng r(vf::case_seed("richardson", idx)); int pk = (int)(idx % 4); System s = make_system(r, idx % 3 == 0, (idx % 3 == 0 && pk == 3) ? 2 : pk); int n = s.n;
@@ -397,7 +412,7 @@ static void sub_richardson() {
 // finite termination: exact or identity preconditioner, m <= n distinct eigenvalues, tol 1e-8, budget n (+ceil(n/s), +L-1)
 //---------------------------------------------------------------------------
 static void sub_termination() {
-    long N = vf::tier(40, 800);
+    long N = vf::tier(160, 800);
     for (long idx = 0; idx < N; ++idx) {
         if (!vf::selected("termination", idx)) continue;
         Rng r(vf::case_seed("termination", idx)); bool exact = idx % 2; bool spd = (idx / 2) % 3 == 0; bool few = (idx / 6) % 2 == 0;
@@ -417,7 +432,7 @@ static void sub_termination() {
         for (int left = 0; left < 2; ++left) { amgcl::solver::gmres<B>::params p; p.maxiter = nn; p.M = 30; p.pside = left ? side::left : side::right; amgcl::solver::gmres<B> Sv(n, p); verdict(left ? "gmres-left" : "gmres", run(Sv, s), nn, 0); }
         { amgcl::solver::fgmres<B>::params p; p.maxiter = nn; p.M = 30; amgcl::solver::fgmres<B> Sv(n, p); verdict("fgmres", run(Sv, s), nn, 0); }
         { amgcl::solver::lgmres<B>::params p; p.maxiter = nn; p.M = 30; p.K = 3; amgcl::solver::lgmres<B> Sv(n, p); verdict("lgmres", run(Sv, s), nn, 0); }
-        { unsigned sv = (unsigned)(1 + (idx / 12) % 8); size_t bud = nn + (nn + sv - 1) / sv; amgcl::solver::idrs<B>::params p; p.s = sv; p.maxiter = (unsigned)bud; amgcl::solver::idrs<B> Sv(n, p); verdict("idrs(s=" + std::to_string(sv) + ")", run(Sv, s), bud, 0); }
+        { unsigned sv = (unsigned)(1 + (idx / 12) % 8); size_t bud = nn + (nn + sv - 1) / sv; amgcl::solver::idrs<B>::params p; p.s = sv; p.maxiter = (unsigned)bud; amgcl::solver::idrs<B> Sv(n, p); verdict("idrs", run(Sv, s), bud, 0); vf::obs_add("idrs_s_seen", std::to_string(sv)); }
         if (exact) { amgcl::solver::richardson<B>::params p; p.maxiter = nn; amgcl::solver::richardson<B> Sv(n, p); verdict("richardson", run(Sv, s), nn, 0); }
         vf::sample("termination", sysdesc(s));
     }
